@@ -1055,11 +1055,11 @@ class PersistenceCheck(Check):
     rule = ("one run = either (a) a grid-file history: GridWriter saves of 1-2 specifications on the same paths in "
             "seeded order, possibly crashed (torn / lost file) and re-run, then a warm or cold (fresh interpreter) "
             "GridReader; loaded arrays and sparse matrices must equal, bit for bit incl. format and index arrays, what "
-            "the writer object returns in memory; or (b) an energy-table scenario: a fake GROMACS peer writes an .xvg "
+            "the writer object returns in memory, which in turn must equal a FullGrid built directly from the same strings; or (b) an energy-table scenario: a fake GROMACS peer writes an .xvg "
             "(0-13 '#' lines, '@' lines to reach >=13 header lines, 1-10 legends with awkward texts, 1-200 rows in "
             "several number formats), EnergyReader (warm or cold) must return one row per data line in order, columns "
             "Time + legends, values == float(token), the single column, and a csv round trip (to_csv -> EnergyReader) "
-            "must be identical; objects a reader loaded earlier are digested again at the end of the run, after later "
+            "must be identical; in some histories one reader object is asked again after its file was rewritten; objects a reader loaded earlier are digested again at the end of the run, after later "
             "writes. Non-trivial: an overwrite, crash or cold reader was involved, or >=2 legends with >=2 "
             "rows. Distinct = distinct hash of the scenario shape. Candidly: most of this is a seeded round trip; the "
             "simulator contributes process separation, overwrite/crash histories and the fake peer.")
